@@ -1,4 +1,4 @@
 From Coq Require Import Extraction ExtrOcamlBasic.
-From SV Require Import Model.PeakHelpers.
+From SV Require Import Model.PeakHelpers Model.Peaks.
 Extraction Language OCaml.
-Extraction "model.ml" sma.
+Extraction "model.ml" sma find_peaks.
